@@ -383,7 +383,7 @@ theorem encodes : EncodesRules (progOf H W problem chk) (Rules ⟨H + 1, W + 1, 
   · intro c
     rw [mem_frag_cs]
     cases chk <;> (simp only [List.mem_append, if_true, if_false, List.not_mem_nil, or_false,
-      Bool.false_eq_true, false_and, true_and]; tauto)
+      Bool.false_eq_true, false_and, true_and]; try tauto)
   · intro c hc
     obtain ⟨p, hp, _, rfl⟩ := mem_givens.1 hc
     have := C11Grid.cell_lt hp.1 hp.2
